@@ -102,11 +102,18 @@ def write_replay(pid, v):
 
 def run_check(pid, tier, seed):
     t0 = time.time()
-    results = []
+    results, tool_errs = [], []
     for name, thunk in plan(pid, tier, seed):
         log("engine", name, "for", pid, "tier", tier)
-        results.append(thunk())
-    if not results:
+        try:
+            results.append(thunk())
+        except ToolError as e:
+            # one engine could not run (e.g. the harness no longer compiles against the tree under
+            # test): the other engines still decide; without a violation from them the check
+            # ends as a tool error (exit 2), never as OK
+            tool_errs.append("%s: %s" % (name, e))
+            log("engine", name, "could not run:", str(e)[:300])
+    if not results and not tool_errs:
         raise ToolError("no engine registered for " + pid)
     mine, tool = [], []
     kf = known_findings()
@@ -127,7 +134,9 @@ def run_check(pid, tier, seed):
                 # "all other properties hold unchanged in every feature combination and profile"
                 mine.append(v)
     if tool:
-        raise ToolError("harness/trace inconsistency: %s" % json.dumps(tool[:3])[:1500])
+        tool_errs.append("harness/trace inconsistency: %s" % json.dumps(tool[:3])[:1500])
+    if tool_errs and not mine:
+        raise ToolError(" || ".join(tool_errs)[:4000])
     evidence = make_evidence(pid, tier, seed, results, mine, time.time() - t0)
     os.makedirs(os.path.join(VERIF, "evidence"), exist_ok=True)
     with open(os.path.join(VERIF, "evidence", pid + ".json"), "w") as f:
